@@ -184,6 +184,27 @@ CLAIMED = {
               "bigwigvaluesoverbed at the command line vs -t 1 and the oracle."),
         ref="DESIGN.md §5 C17",
         note=NOTE + "Means are f64 quotients of proved quantities (division is outside the integer model); the {:.3} text is compared numerically."),
+    "C16": dict(
+        text=("Proof (decision logic in front of the converters): every UCSC spelling of the property rewrites to the native flag and "
+              "native / positional arguments are left alone (kernel-decided against the table re-extracted from cli.rs), native `--…` "
+              "arguments are never touched whatever follows (general lemma over the extracted tables), multicall dispatch; the record "
+              "round trip and the restricted-range output are C01/C02/C03 for every option record. PARTIAL: clap, ryu float printing and "
+              "Rust's float parser are not modelled. Correspondence: compat_args in-process on seeded argument vectors vs the model; the "
+              "built binaries over -t 1..16, --parallel auto|yes|no, --single-pass, --inmemory, --uncompressed / -unc, --block-size / "
+              "-blockSize=, --zooms, multicall, and restricted output (native and UCSC spellings) vs the real reader's range query."),
+        ref="DESIGN.md §5 C16",
+        note=NOTE + "Texts are compared as parsed records (numerically equal values, identical extra columns)."),
+    "C20": dict(
+        text=("Proof: per-base routines fill each cell with the stored value / the number of overlapping entries and leave it missing "
+              "exactly when nothing covers it, never indexing out of bounds, for every range and every item list the reader can return; "
+              "exact-bin routines of integral width (bigWig and bigBed): no out-of-bounds write and bin k = mean / min / max over the "
+              "covered bases of its span, missing when none; witnesses of the code as found (panic, dropped entries, 0/0). "
+              "Correspondence through the REAL Python API (pybigtools.values from the cdylib built from /repo): every request shape "
+              "[s,e) incl. s < 0 and e > len × every bin count × three statistics × missing/oob fills on small files: exact equality "
+              "with model and oracle for integral widths and per-base, NaN-freedom and range for every width and for zoom-backed requests."),
+        ref="DESIGN.md §5 C20",
+        note=NOTE + "PARTIAL: non-integral widths and zoom-backed bins are judged by NaN-freedom / range only (as the property asks); the "
+                    "out-of-bounds fill is modelled in the driver, not proved; f64 arithmetic is exact on the integral cases compared exactly."),
 }
 
 PENDING = ["C01", "C02", "C03", "C04", "C05", "C06", "C07", "C08", "C09", "C10", "C11", "C13", "C14", "C15", "C16",
